@@ -144,27 +144,56 @@ def register3(reg):
                       ('property', 'submap(self._memos, old_self._memos)'),
                       ('property', 'implies(not self._active_config.prune_memos_on_cut, self._memos.mkeys == old_self._memos.mkeys and self._memos.mvals == old_self._memos.mvals)')])
     for variant, pfx in (('', 'func:PARSE'), ('#nosep', 'None')):
+        # full functional statement for the variant without separator: the final frame is the recursive spec (C01), and the
+        # repetition fails exactly when the iteration that ends it failed after a cut (C05)
+        REP = (lambda f: f'spec_rep_nosep(exp, {f})') if variant else (lambda f: f'spec_rep_sep(exp, prefix, omitsep, {f})')
+        FAILS = f'spec_rep_nosep_fails(exp, {OTOP})' if variant else f'spec_rep_sep_fails(exp, prefix, omitsep, {OTOP})'
+        REPF = REP(OTOP)
+        fun_inv = [f'{REP(TOP)} == {REPF}']
+        fun_post = [('property', f'{TOP} == {REPF}'), ('property', f'not ({FAILS})')]
+        fun_fail = [('property', FAILS), ('property', f'{TOP} == spec_with_cut({REPF})')]
         contract(reg, f'{X}:ParseContext.repeat{variant}', ALL,
                  {'self': 'Ctx', 'exp': 'func:PARSE', 'prefix': pfx, 'omitsep': 'bool'}, ret='None',
                  requires=REQ + [f'spec_islist({TOP}.cst)'], defaults={'prefix': None, 'omitsep': False},
-                 invariants={0: SHAPE + [f'{TOP}.cutseen == {OTOP}.cutseen', f'spec_islist({TOP}.cst)']},
+                 invariants={0: SHAPE + [f'{TOP}.cutseen == {OTOP}.cutseen', f'spec_islist({TOP}.cst)'] + fun_inv},
                  ensures=[*SHAPE, ('property', f'{TOP}.cutseen == {OTOP}.cutseen'), f'spec_islist({TOP}.cst)',
                           # C05 "a join commits after each separator": the repetition ends normally only where the separator
                           # itself does not match (once it matched, a failing element makes the repetition fail)
-                          *([('property', f'not out_ok(prefix, spec_fresh(spec_fresh({TOP})))')] if variant == '' else [])],
+                          *([('property', f'not out_ok(prefix, spec_fresh(spec_fresh({TOP})))')] if variant == '' else []),
+                          *fun_post],
                  raises={'FailedParse': [f'top_only({S}, {OS})', f'spec_same_text({OTOP}, {TOP})',
-                                         ('property', f'{TOP}.cutseen')]},
+                                         ('property', f'{TOP}.cutseen'), *fun_fail]},
                  propagates=[GROW])
     for fn in ('closure', 'positive_closure'):
         for variant, pfx in (('', 'func:PARSE'), ('#nosep', 'None')):
+            REP = (lambda f: f'spec_rep_nosep(exp, {f})') if variant else (lambda f: f'spec_rep_sep(exp, sep, omitsep, {f})')
+            RFAILS = (lambda f: f'spec_rep_nosep_fails(exp, {f})') if variant else (lambda f: f'spec_rep_sep_fails(exp, sep, omitsep, {f})')
+            if fn == 'closure':
+                # {e}: statescope frame with an empty list; e and the repetition run inside optional()
+                E0 = f'spec_fresh(spec_fresh({OTOP}))'           # the frame the first e runs on
+                S1 = f'spec_with_cst(spec_fresh({OTOP}), [])'    # the closure's own frame
+                START = f'spec_rep_start(out_frame(exp, {E0}))'
+                DONE = lambda inner: f'spec_merged({OTOP}, spec_closed({inner}))'  # noqa: E731
+                fun = [('property', f'implies(not out_ok(exp, {E0}), not out_cut(exp, {E0}) and result == closedlist([]) and '
+                                    f'{S} == {OS}[:-1] + [{DONE(S1)}])'),
+                       ('property', f'implies(out_ok(exp, {E0}), not ({RFAILS(START)}) and '
+                                    f'{S} == {OS}[:-1] + [{DONE(f"spec_merged({S1}, {REP(START)})")}] and '
+                                    f'result == closedlist(spec_merged({S1}, {REP(START)}).cst))')]
+                fails = [('property', f'(not out_ok(exp, {E0}) and out_cut(exp, {E0})) or (out_ok(exp, {E0}) and ({RFAILS(START)}))')]
+            else:
+                E0 = f'spec_fresh({OTOP})'
+                START = f'spec_rep_start(out_frame(exp, {E0}))'
+                fun = [('property', f'out_ok(exp, {E0}) and not ({RFAILS(START)})'),
+                       ('property', f'{S} == {OS}[:-1] + [spec_merged({OTOP}, spec_closed({REP(START)}))]'),
+                       ('property', f'result == closedlist({REP(START)}.cst)')]
+                fails = [('property', f'not out_ok(exp, {E0}) or ({RFAILS(START)})')]
             contract(reg, f'{X}:ParseContext.{fn}{variant}', ALL,
                      {'self': 'Ctx', 'exp': 'func:PARSE', 'sep': pfx, 'omitsep': 'bool'}, ret='Val',
                      requires=REQ, defaults={'sep': None, 'omitsep': False},
                      ensures=[*SHAPE, ('property', 'isinstance(result, closedlist)'),
                               ('property', f'{TOP}.cst == spec_cstmerge({OTOP}.cst, result)'),
-                              ('property', f'{TOP}.cutseen == {OTOP}.cutseen')],
-                     raises={'FailedParse': [SAME]}, propagates=[GROW])
-
+                              ('property', f'{TOP}.cutseen == {OTOP}.cutseen'), *fun],
+                     raises={'FailedParse': [SAME, *fails]}, propagates=[GROW])
 
 def register4(reg):
     """generated-code twins of the naming nodes (C02).  The emitted block binds `last_node`; it equals what the
